@@ -161,6 +161,13 @@ def tasks_for(tier: str, which: str):
                 T.append(dict(gen="gen_dfs_percolation", shape=(3, 3), kws=[kw], mode="stateless", rand=pol))
         else:
             T.append(dict(gen="gen_dfs_percolation", shape=(3, 3), kws=kws, mode="stateless", rand=pol))
+    # 7. one-cell-wide grids with a side beyond 127 / 255 cells (coordinates outside the narrow integer types): every execution of gen_dfs
+    #    (the walk is forced once the start cell and the first direction are chosen), percolation at p in {0, 1}
+    for n in ((129, 130, 200) if quick else (129, 130, 200, 257, 300)):
+        for sh in ((1, n), (n, 1)):
+            T.append(dict(gen="gen_dfs", shape=sh, kws=[{}], mode="stateless"))
+            T.append(dict(gen="gen_percolation", shape=sh, kws=[dict(p=0.0), dict(p=1.0)], mode="stateless", rand="tiny"))
+    T.append(dict(gen="gen_dfs_percolation", shape=(1, 130), kws=[dict(p=0.0)], mode="stateless", rand="tiny"))
     for t in T:
         t["which"] = which
         t["tier"] = tier
@@ -373,6 +380,19 @@ def explore_task(task, res):
 SEQ_SHAPES = [[(2, 2), (2, 3), (3, 2), (1, 3), (3, 1)], [(3, 1), (1, 3), (3, 2), (2, 3), (2, 2)], [(1, 2), (2, 1), (2, 2), (1, 3), (2, 3)]]
 
 
+KW_SEQS = [
+    ("gen_prim", [dict(accessible_cells=3), {}], "state", "default"),
+    ("gen_prim", [dict(start_coord=(0, 0), max_tree_depth=2), {}], "state", "default"),
+    ("gen_prim", [{}, dict(accessible_cells=2, start_coord=(1, 1)), {}], "state", "default"),
+    ("gen_dfs", [dict(accessible_cells=3), {}], "stateless", "default"),
+    ("gen_dfs", [dict(max_tree_depth=1, start_coord=(0, 0)), dict(do_forks=False), {}], "stateless", "default"),
+    ("gen_dfs", [dict(accessible_cells=1.0), dict(accessible_cells=1), dict(accessible_cells=1.0)], "stateless", "default"),
+    ("gen_dfs", [dict(max_tree_depth=1), dict(max_tree_depth=1.0), dict(max_tree_depth=1)], "stateless", "default"),
+    ("gen_dfs_percolation", [dict(p=1.0), dict(p=0.0), dict(p=0.4, accessible_cells=2), dict(p=0.4)], "stateless", "tiny"),
+    ("gen_percolation", [dict(p=1.0), dict(p=0.0), dict(p=0.4, start_coord=(0, 0)), dict(p=0.4)], "stateless", "tiny"),
+]
+
+
 def sequence_tasks(tier, which):
     """every generator on several grid shapes that share a row or column count, one after the other in ONE fresh interpreter:
     what a generator (or a helper it calls) remembered from an earlier grid must not change its behaviour on a later one"""
@@ -382,6 +402,12 @@ def sequence_tasks(tier, which):
                                 ("gen_dfs", dict(accessible_cells=3, start_coord=(0, 0)), "stateless", "default")):
         for shapes in SEQ_SHAPES:
             T.append(dict(which=which, tier=tier, sequence=[dict(gen=gen, shape=sh, kws=[dict(kw)], mode=mode, rand=rand, which=which, tier=tier) for sh in shapes]))
+    # the same generator called with different arguments one after the other (constrained, then default; count vs fraction spellings
+    # of the same number): arguments of an earlier call must not stick
+    for gen, kws, mode, rand in KW_SEQS:
+        for shapes in ([(2, 3), (3, 2)], [(3, 3), (2, 2)] if mode == "stateless" else [(2, 2), (2, 3)]):  # the randomized stack on 3x3 is a 2-minute graph
+            T.append(dict(which=which, tier=tier, sequence=[dict(gen=gen, shape=shapes[i % 2] if len(kws) > 2 else shapes[0], kws=[dict(kw)], mode=mode, rand=rand,
+                                                                 which=which, tier=tier) for i, kw in enumerate(kws)]))
     return T
 
 
